@@ -1,14 +1,15 @@
 #!/usr/bin/env python3
 """C20 -- the live-reload proxy alters HTML responses only by appending the reload script (spec/Proxy.tla).
 
-MC   : TLC checks PassThroughIsIdentity, HtmlGetsExactlyOneScript, LengthMatchesBody and
+MC   : TLC checks PassThroughIsIdentity, HtmlGetsExactlyOneScript, DocumentOnlyAppendedTo, LengthMatchesBody and
        EncodingHeaderDescribesBody on the response pipeline for the whole abstract configuration space
        (content type x encoding x request kind x skip marker x CSP shape x body shape x client
-       Accept-Encoding = 9856 configurations; a CSP is header lines > comma-separated policies > directives >
+       Accept-Encoding = 15488 configurations; a document is a skeleton plus items -- raw-text, RCDATA and noscript
+       elements in head/body -- whose fate under parse/append/render the spec decides; a CSP is header lines > comma-separated policies > directives >
        sources, the nonce extraction is transcribed at that level). Negative configs that TLC must reject: the
        pipeline as coded at the pinned commit (an unsupported Content-Encoding falls through to the rewrite), the
-       nonce extraction as coded (first header line only, policy lists not split) and a forgotten Content-Length
-       update.
+       nonce extraction as coded (first header line only, policy lists not split), parsing with scripting disabled
+       (noscript content becomes markup) and a forgotten Content-Length update.
 GEN  : what the tree does with an unsupported encoding and with a script nonce in the second CSP header line is
        probed on the real proxy and selects the spec constants; TLC then prints every configuration with the predicted response and EVERY one is replayed end
        to end (httptest backend -> real proxy.New handler -> HTTP client without transparent decompression) at
@@ -43,7 +44,7 @@ def main():
     ck.add_tlc(mc, "Proxy_mc (UnsupportedRule=pass, CspRule=policylist)")
     negs = {}
     for cfg, inv in (("Proxy_ascoded.cfg", "PassThroughIsIdentity"), ("Proxy_ascoded_csp.cfg", "HtmlGetsExactlyOneScript"),
-                     ("Proxy_neg_length.cfg", "LengthMatchesBody")):
+                     ("Proxy_neg_noscripting.cfg", "DocumentOnlyAppendedTo"), ("Proxy_neg_length.cfg", "LengthMatchesBody")):
         r = vlib.tlc("Proxy", cfg, workers=1, timeout=300)
         if r.violated != inv:
             raise vlib.InfraError("negative config %s was not rejected with %s (got %s)" % (cfg, inv, r.violated))
@@ -52,7 +53,7 @@ def main():
 
     # --- which rules does the tree implement? decided by the real proxy ------------------------------
     # (the probe and the self-test take their configurations -- including the CSP header structure -- from TLC)
-    NCASES = 4 * 4 * 2 * 2 * 11 * 7 * 2
+    NCASES = 4 * 4 * 2 * 2 * 11 * 11 * 2
     sc = vlib.scratch()
 
     def emit(rule, csprule, name):
@@ -114,7 +115,7 @@ def main():
     ck.set("max_body_bytes", s["max_body_bytes"])
     ck.set("traces_validated_against_impl", s["exchanges"])
     ck.set("exhaustive", True)
-    ck.set("bounds", {"content_types": 4, "encodings": 4, "requests": 2, "skip_marker": 2, "csp_shapes": 11, "body_shapes": 7,
+    ck.set("bounds", {"content_types": 4, "encodings": 4, "requests": 2, "skip_marker": 2, "csp_shapes": 11, "body_shapes": 11,
                       "accept_encoding": 2, "sizes": "0, ~1 KiB, 4095..4097, 32767..32769, 65536, 3 MiB (seeded subset)"})
     ck.set("rule", "every abstract configuration (%d)" % NCASES + "  is replayed end to end on the real proxy at >= 2 body sizes; "
                    "documents are well-formed pages stable under x/net/html parse/render/parse")
